@@ -43,6 +43,10 @@ EXTRA_KINDS = {
     'stdout_encoding': (['>>> mark("{id}")', '>>> import sys', '>>> assert isinstance(sys.stdout.encoding, str)'], 'passed', True),
     'stdout_fileno': (['>>> mark("{id}")', '>>> import sys', '>>> isinstance(sys.stdout.fileno(), int)', 'True'], 'passed', True),
 }
+# a doctest that raises unittest.SkipTest: an exception like any other for DocTest.run, a skip for pytest (finding F36).
+# Only in directed modules (the comparison of a module stops at its first disagreement).
+SKIPTEST_KIND = {'raises_skiptest': (['>>> import unittest', '>>> mark("{id}")', '>>> raise unittest.SkipTest("no resource")'],
+                                     'failed', True)}
 
 
 def outcome_under(kind, base, options):
@@ -120,11 +124,15 @@ def check_module(ctx, idx, seed):
     saved = dict(gm.OUTCOMES)
     gm.OUTCOMES.update(EXTRA_KINDS)
     try:
+        if idx % 16 == 9:
+            gm.OUTCOMES.update(SKIPTEST_KIND)
         layout = rng.choice(['google', 'freeform'])
         style = rng.choice([layout, 'auto'])
         # every eighth module opens with a doctest that fails after binding a name, followed by one whose outcome
         # depends on that name not being there
         lead = ['pass', 'fail_after_binding', gm.LEFTOVER_READERS[(idx // 8) % 2]][(idx // 16) % 2:] if idx % 8 == 5 else ()
+        if idx % 16 == 9:
+            lead = ['pass', 'raises_skiptest']
         om = gm.outcome_module(rng, '%dx%d' % (ctx.seed, idx), layout=layout, n=rng.randint(1, 7), lead=lead)
     finally:
         gm.OUTCOMES.clear()
@@ -179,8 +187,9 @@ def check_module(ctx, idx, seed):
                 same = (pv == nv)
             if not same:
                 blame = 'pytest' if pv != (e if e != 'disabled' else 'skipped') else 'native'
-                bad('verdicts-differ', 'doctest %s: pytest says %s, native says %s (by construction %s -> the %s side is wrong)' % (
-                    ident, pv, nv, e, blame), ident=ident, pytest=pv, native=nv)
+                kind_of = {t['ident']: t['kind'] for t in om.tests}
+                bad('verdicts-differ', 'doctest %s (%s): pytest says %s, native says %s (by construction %s -> the %s side is wrong)' % (
+                    ident, kind_of[ident], pv, nv, e, blame), ident=ident, pytest=pv, native=nv, kind=kind_of[ident])
                 ok = False
                 break
             if e != 'disabled' and pv != e:
@@ -330,6 +339,11 @@ def replay(case, ctx):
 
 
 def classify(v):
+    # F36 by mechanism: the doctest raises unittest.SkipTest, pytest turns that into a skip, the native runner reports the
+    # exception
+    if (v.get('mechanism') == 'verdicts-differ' and v.get('kind') == 'raises_skiptest' and v.get('pytest') == 'skipped'
+            and v.get('native') == 'failed'):
+        return 'skiptest-raised-in-doctest'
     return None
 
 
